@@ -1,7 +1,8 @@
 (** C05 — Message format expansion is exact and length-bounded.
     Only statements, each closed by [exact] of a general theorem instantiated with the
     constants regenerated from /repo (Gen.Gen_Expand), plus non-vacuity examples. *)
-From Snoopy Require Import Lib.CStr Expand.Model Expand.Proofs.
+From Snoopy Require Import Lib.CStr Expand.Model Expand.Proofs Expand.Tokens.
+From Coq Require Import Strings.String.
 From Gen Require Import Gen_Expand.
 Local Open Scope N_scope.
 
@@ -43,6 +44,15 @@ Section C05.
       len (full Gen_Expand.consts known ds (path_buf Gen_Expand.consts) fmt) < path_buf Gen_Expand.consts ->
       path_message Gen_Expand.consts known ds fmt = full Gen_Expand.consts known ds (path_buf Gen_Expand.consts) fmt.
   Proof. intros fmt. apply (generate_exact Gen_Expand.consts gen_ok). Qed.
+
+  (** "exactly" refers to the documented expansion: the ideal expansion is the left-to-right
+      rendering of the independent character-level token reading of the format (literal text
+      verbatim; %{name} / %{name:arg} split at the first ':' -> data source output; unknown name,
+      unterminated tag, failing data source -> the bracketed error texts of Gen) *)
+  Theorem C05_full_is_documented : forall third fmt,
+      full Gen_Expand.consts known ds third fmt
+      = render Gen_Expand.consts known ds (third + ds_buf_adj Gen_Expand.consts) (tokens (S (List.length fmt)) fmt []).
+  Proof. exact (full_is_render Gen_Expand.consts eq_refl eq_refl eq_refl known ds). Qed.
 End C05.
 
 Print Assumptions C05_bounded.
@@ -52,3 +62,10 @@ Print Assumptions C05_ident_bounded.
 Print Assumptions C05_path_bounded.
 Print Assumptions C05_ident_exact.
 Print Assumptions C05_path_exact.
+Print Assumptions C05_full_is_documented.
+
+(** non-vacuity of the token reading: a literal, a tag with argument containing ':', stray braces *)
+Example C05_tokens_nonvacuous :
+  tokens 40 (bytes "a}%{env:X:Y} %{%{q}z%{"%string) [] =
+  [TLit (bytes "a}"%string); TTag (bytes "env"%string) (bytes "X:Y"%string); TLit (bytes " "%string); TTag (bytes "%{q"%string) []; TLit (bytes "z"%string); TUnterminated].
+Proof. vm_compute. reflexivity. Qed.
